@@ -797,10 +797,15 @@ func (it *Interp) setupIntrinsics() {
 		if hi == 0 {
 			lo, hi = 2, 2
 		}
+		if t, ok := it.fixed["$NumCPU"]; ok { // one machine per path: every call returns the same count
+			return t
+		}
 		v := it.newInput("$NumCPU", it.intSort(64), "int")
 		it.addPC(it.tb.Cmp(token.GEQ, v, it.mkInt(lo), true))
 		it.addPC(it.tb.Cmp(token.LEQ, v, it.mkInt(hi), true))
-		return it.mkInt(int(it.concretize(v)))
+		k := it.mkInt(int(it.concretize(v)))
+		it.fixed["$NumCPU"] = k
+		return k
 	}
 	T["runtime.Gosched"] = func(it *Interp, fn *ssa.Function, a []Value) Value { it.schedPoint(); return nil }
 	T["runtime.GOMAXPROCS"] = func(it *Interp, fn *ssa.Function, a []Value) Value { return it.mkInt(2) }
